@@ -28,7 +28,20 @@ AllProblems ==
 TChk == /\ IsEvent("chk_fonts") /\ phase = "done"
         /\ IF AllProblems = {} THEN TRUE ELSE PrintT(<<"PROBLEMS", ToJson([idx |-> l, problems |-> AllProblems])>>) /\ FALSE
         /\ UNCHANGED allvars
-TNext == TFile \/ TScan \/ TChk
+\* KNOWN (C13-cff-shared-glyph): a CID-keyed CFF subset names one CID per glyph (its charset is a function of the glyph), and
+\* the subsetter keeps one of the characters that share a glyph in the original font (hyphen-minus / hyphen, Greek delta /
+\* increment in Source Sans 3): the other character's code has no glyph in the embedded program.  Only "glyph not in the
+\* embedded font" for such a code of a CFF font is excused.
+CharsOfFont(font) == UNION {UNION {IF C.pages[pg][k].font = font THEN {C.pages[pg][k].text[x] : x \in 1..Len(C.pages[pg][k].text)} ELSE {} : k \in 1..Len(C.pages[pg])} : pg \in 1..Len(C.pages)}
+SharedGlyph(font, code) == LET orig == Font(FileSrc(OrigPath(font)))  cm == CmapOf(orig)  g == Gid(orig, cm, code) IN
+                           g # 0 /\ \E c2 \in CharsOfFont(font) \ {code} : Gid(orig, cm, c2) = g
+Excused(p) == /\ "code" \in DOMAIN p /\ p.problem = "the glyph of a shown code is not in the embedded font"
+              /\ LET f == C.pages[p.page][p.line].font IN f = "sourcesans" /\ SharedGlyph(f, p.code)
+TChkKnown == /\ KnownOpen("KF_C13_CFF_SHARED_GLYPH") /\ IsEvent("chk_fonts") /\ phase = "done"
+             /\ AllProblems # {} /\ \A p \in AllProblems : Excused(p)
+             /\ NoteKnown("KF_C13_CFF_SHARED_GLYPH", l)
+             /\ UNCHANGED allvars
+TNext == TFile \/ TScan \/ TChk \/ TChkKnown
 TraceSpec == TInit /\ [][TNext]_tvars
 Prog == Progress(l)
 =============================================================================
